@@ -17,10 +17,10 @@ def ghNextC (gh : Gh) (e : EvL) (out : OutC) : Gh :=
     (match gh, out.out with
      | some last, .up so _ _ => some (upRefC cc last conf e.1 fault c1 rx1 c2 rx2 so).st.last
      | _, _ => gh)
-  | .joinC cc fault c1 rx1 c2 rx2 => ghStep gh (joinPlain cc fault c1 rx1 c2 rx2)
+  | .joinC cc fault c1 rx1 c2 rx2 => ghStep gh (joinPlain fault rx1 rx2)
 
 theorem evOk_joinPlain {cc : Bool} {fault : Option FaultPos} {c1 c2 : List (RxView × Int)} {rx1 rx2 : Option (RxView × Int)}
-    (h : evOkC (.joinC cc fault c1 rx1 c2 rx2) = true) : evOk (joinPlain cc fault c1 rx1 c2 rx2) = true := by
+    (h : evOkC (.joinC cc fault c1 rx1 c2 rx2) = true) : evOk (joinPlain fault rx1 rx2) = true := by
   simp only [evOkC, Bool.and_eq_true] at h
   simp only [joinPlain, evOk, Bool.and_eq_true]
   exact ⟨h.1.1.2, h.2⟩
